@@ -147,6 +147,10 @@ def _uid(x: Any) -> Any:
     return x.uid if isinstance(x, Item) else ("raw", repr(x))
 
 
+def _failkey(x: Any) -> Any:
+    raise ZeroDivisionError("key refuses every item")
+
+
 IMPLS: Dict[str, Callable[..., Any]] = {
     # predicates
     "lt1": lambda x: _k(x) < 1,
@@ -177,6 +181,7 @@ IMPLS: Dict[str, Callable[..., Any]] = {
     "neg": lambda x: -_k(x),
     "ident": lambda x: x,
     "const": lambda x: 0,
+    "failkey": _failkey,
     "keyitem": lambda x: Item(_k(x) // 2, ("key", _uid(x))),
     "nullary": lambda: None,  # replaced per run by the iter(callable, sentinel) feeder
 }
